@@ -332,8 +332,21 @@ func (r *Registry) sortOf(t types.Type) string {
 		return r.sliceSort(r.sortOf(t.Elem()))
 	case *types.Tuple:
 		return "Int"
+	case *types.TypeParam:
+		// a type parameter constrained to a single (tilde) basic type has that sort (parse.Enum[T ~string])
+		if it, ok := t.Constraint().Underlying().(*types.Interface); ok {
+			for i := 0; i < it.NumEmbeddeds(); i++ {
+				if un, ok := it.EmbeddedType(i).(*types.Union); ok && un.Len() == 1 {
+					return r.sortOf(un.Term(0).Type())
+				}
+				if b, ok := it.EmbeddedType(i).(*types.Basic); ok {
+					return r.sortOf(b)
+				}
+			}
+		}
+		return "Int"
 	}
-	// pointers, interfaces, maps, funcs, chans, type params: references
+	// pointers, interfaces, maps, funcs, chans: references
 	return "Int"
 }
 
